@@ -70,6 +70,8 @@ type run struct {
 	races    map[string]int
 	mu       sync.Mutex
 	extra    map[string]interface{}
+
+	forceInconclusive bool
 }
 
 func (r *run) addViol(v *viol) {
@@ -505,6 +507,10 @@ func (r *run) finish(t0 time.Time) int {
 	}
 	if nviol > 0 {
 		return 1
+	}
+	if r.forceInconclusive {
+		fmt.Printf("INCONCLUSIVE property=%s %s\n", sp.ID, strings.Join(r.inconcl, "; "))
+		return 2
 	}
 	if ev == 0 || dn < 2 {
 		fmt.Printf("INCONCLUSIVE property=%s the monitors observed nothing (evaluations=%d distinct=%d)\n", sp.ID, ev, dn)
